@@ -65,6 +65,7 @@ def yields_of(cfg, world, modname, local_aliases=None):
     """All yield points of a generator CFG, resolved.  A statement with more
     than one yield is outside the supported subset."""
     out = []
+    defs = None
     for n in cfg.reachable:
         if n.ast is None or n.kind not in ("stmt", "test"):
             continue
@@ -86,6 +87,16 @@ def yields_of(cfg, world, modname, local_aliases=None):
         elif isinstance(a, ast.Assign) and isinstance(a.value, ast.Await):
             pass
         call = y.value if isinstance(y.value, ast.Call) else None
+        if call is None and isinstance(y.value, ast.Name) and \
+                getattr(cfg, "fn", None) is not None:
+            # `cmd = X(...)` built once, `yield cmd` (possibly several
+            # times): the command object of that one construction
+            if defs is None:
+                from .astq import _defs
+                defs = _defs(cfg.fn)
+            d = defs.get(y.value.id)
+            if isinstance(d, ast.Call):
+                call = d
         cls = fn = None
         if call is not None:
             r = resolve_callable(world, modname, call.func, local_aliases)
